@@ -61,7 +61,7 @@ MANIFEST = dict(
               "matching of stored values",
 )
 FLOORS = {"C08.1": 30, "C08.3": 6, "C08.4": 3, "C08.5": 4, "C08.6": 2,
-          "C08.7": 4, "C08.8": 8, "C08.9": 6}
+          "C08.7": 4, "C08.8": 8, "C08.9": 6, "C08.10": 3}
 
 PATH = "evo.core.trajectory.PosePath3D"
 TRAJ = "evo.core.trajectory.PoseTrajectory3D"
@@ -382,6 +382,16 @@ def check(ctx):
     n = import_rules(ctx, "c03", ("C03.4", "C03.7"), "C08.9")
     n += import_rules(ctx, "c11", ("C11.3",), "C08.9")
     ctx.require(n >= 6, "C08.9: sign-fix / crop instances not found")
+    # "each operation has exactly its documented effect ... and the views
+    # describe the same poses": a pose matrix can occur several times in the
+    # list ([pose] * n) and is shared with other objects, so an operation
+    # that writes into the matrices instead of rebinding new ones is applied
+    # k times to a k-fold entry while the cached positions get it once —
+    # instances of C16.2 (storage writes of the trajectory classes)
+    n = import_rules(ctx, "c16", ("C16.2",), "C08.10",
+                     pred=lambda o: ".PosePath3D." in o.key or
+                     ".PoseTrajectory3D." in o.key)
+    ctx.require(n >= 3, "C08.10: pose-storage write instances not found")
 
     # constructor: the views come from the like-named arguments
     f = prog.func(f"{PATH}.__init__")
